@@ -40,6 +40,9 @@ OpClass(op) ==
     [] op \in {"get_shutter_state", "get_breeze_state"} -> "query2"
     [] op = "control_breeze_device" -> "breeze"
 StateQueries == {"get_state", "get_shutter_state", "get_breeze_state"}
+\* beyond the listed statements: both client classes share one interface; what a device type cannot do is refused at once
+\* (NotImplementedError, nothing written, no login).  `stop` is defined once for both.
+Supported(api, op) == IF api = 1 THEN op \in Ops1 \cup {"stop"} ELSE op \in Ops2
 
 \* an instance at rest
 Idle(api, dev, key) ==
